@@ -141,7 +141,7 @@ func c18Funcs() []c18fn {
 			}
 			return nil, "abstain"
 		}},
-		{name: "CHANGETYPE", arity: 2, dom: [][]any{nil, types}, ref: func(a []any) (any, string) {
+		{name: "CHANGETYPE", arity: 2, dom: [][]any{append(append([]any{}, c18Vals...), "010", "-0012", "0x10", "1_0", "+7", " 7", "7 ", "1e2", "0b11", "0o17"), types}, ref: func(a []any) (any, string) {
 			t, ok := a[1].(string)
 			if !ok {
 				return nil, "abstain"
@@ -634,7 +634,8 @@ func (p *c18) RunCase(i int) *core.CaseResult {
 	if f.name == "CHANGETYPE" {
 		switch v := first.(type) {
 		case string:
-			if _, err := strconv.ParseFloat(v, 64); err == nil {
+			// the law is about canonical numeric text ("010", "+7", "1e2" read as numbers but are not how a number is printed)
+			if f64, err := strconv.ParseFloat(v, 64); err == nil && strconv.FormatFloat(f64, 'f', -1, 64) == v {
 				o := gq.Run(map[string]any{"t": []any{map[string]any{"c0": v}}}, "SELECT CHANGETYPE(CHANGETYPE(c0, 'double'), 'string') AS v FROM t")
 				r.Execs++
 				if o.Failed() || gq.Render(o.Rows) != gq.Render([]any{map[string]any{"v": v}}) {
